@@ -16,11 +16,13 @@ for prop in "${props[@]}"; do
     git -C /repo worktree add -q --detach "$wt" HEAD >/dev/null 2>&1 || { echo "worktree failed"; exit 2; }
     # carry uncommitted contract files too
     (cd /repo && git ls-files -o --exclude-standard -- '*_verif.go' | while read f; do mkdir -p "$wt/$(dirname $f)"; cp "$f" "$wt/$f"; done)
-    (cd /repo && git diff -- '*_verif.go' | git -C "$wt" apply 2>/dev/null)
+    # ... and every other uncommitted change of the working tree (the corpus is measured against
+    # the current tree, not against HEAD)
+    (cd /repo && git diff HEAD | git -C "$wt" apply 2>/dev/null)
     if ! git -C "$wt" apply "$PWD/$patch" 2>/tmp/gocv-apply.err; then
       echo "SELFTEST-ERROR $patch does not apply: $(cat /tmp/gocv-apply.err | head -2)"; fail=1
     else
-      out=$(VERIF_OUT="$wt/.verifout" /verif/bin/gocv check --repo "$wt" --property "$prop" --tier quick 2>&1); code=$?
+      out=$(GOCV_NORETRY=1 VERIF_OUT="$wt/.verifout" /verif/bin/gocv check --repo "$wt" --property "$prop" --tier quick 2>&1); code=$?
       if [ $code -eq 1 ] && echo "$out" | grep -q "^VIOLATION property=$prop"; then
         echo "ok   $patch -> $(echo "$out" | grep -c '^VIOLATION') violation(s): $(echo "$out" | grep '^VIOLATION' | head -1 | sed 's/.*replays\/[^/]*\///' | cut -c1-90)"
       else
